@@ -866,11 +866,35 @@ def affine(canon, e, fr, env=None, _d=0):
                 return inner
             return Affine({'round(%r)' % inner: 1})
         if e.func.id in ('max', 'min') and len(e.args) >= 2:
-            parts = sorted(repr(affine(canon, a, fr, env, d)) for a in e.args)
-            return Affine({'%s(%s)' % (e.func.id, ', '.join(parts)): 1})
+            affs = [affine(canon, a, fr, env, d) for a in e.args]
+            if all(a.is_const() for a in affs):
+                return Affine({}, (max if e.func.id == 'max' else min)(a.const for a in affs))
+            return minmax_term(e.func.id, affs)
         if e.func.id == 'len' and len(e.args) == 1:
             return Affine({'len(%s)' % canon.c(e.args[0], fr): 1})
     return Affine({canon.c(e, fr): 1})
+
+
+TERM_INFO = {}
+
+
+def minmax_term(kind, affs):
+    parts = sorted(set(repr(a) for a in affs))
+    if len(parts) == 1:
+        return affs[0]
+    key = '%s(%s)' % (kind, ', '.join(parts))
+    TERM_INFO[key] = (kind, affs)
+    return Affine({key: 1})
+
+
+def distribute_const(a):
+    """max(x, y) + c  ->  max(x + c, y + c)  (single min/max term, coefficient 1)"""
+    if len(a.terms) == 1 and a.const != 0:
+        (k, v), = a.terms.items()
+        if v == 1 and k in TERM_INFO:
+            kind, affs = TERM_INFO[k]
+            return minmax_term(kind, [x + Affine({}, a.const) for x in affs])
+    return a
 
 
 def affine_cmp(canon, l, op, r, fr, env=None):
